@@ -3,6 +3,7 @@ package multidb
 import (
 	"errors"
 	"fmt"
+	"sort"
 	"strings"
 
 	"github.com/Fantom-foundation/lachesis-base/kvdb"
@@ -27,7 +28,15 @@ func NewProducer(producers map[TypeName]kvdb.FullDBProducer, routingTable map[st
 	routingFmt := make([]scanfRoute, 0, len(routingTable))
 	exactRoutingTable := make(map[string]Route, len(routingTable))
 	used := make(map[TypeName]kvdb.FullDBProducer)
-	for req, route := range routingTable {
+	// iterate in a fixed order: the pattern routes are tried in the order they are compiled in,
+	// so ranging over the map directly would make RouteOf depend on Go's random map order
+	reqs := make([]string, 0, len(routingTable))
+	for req := range routingTable {
+		reqs = append(reqs, req)
+	}
+	sort.Strings(reqs)
+	for _, req := range reqs {
+		route := routingTable[req]
 		used[route.Type] = producers[route.Type]
 		if !strings.ContainsRune(req, '%') && !strings.ContainsRune(route.Name, '%') {
 			exactRoutingTable[req] = route
